@@ -718,6 +718,45 @@ func (rc *RefClient) Retained() []string {
 	return out
 }
 
+// ReachableAvoiding reports whether rid is reachable from the client's direct
+// subscriptions (confirmed or requested) without passing through a resource for
+// which avoid returns true.
+func (rc *RefClient) ReachableAvoiding(rid string, avoid func(string) bool) bool {
+	seen := map[string]bool{}
+	var stack []string
+	push := func(r string) {
+		if seen[r] || rc.Cache[r] == nil {
+			return
+		}
+		seen[r] = true
+		stack = append(stack, r)
+	}
+	for r, n := range rc.Direct {
+		if n > 0 {
+			push(r)
+		}
+	}
+	for _, sr := range rc.sent {
+		if strings.HasPrefix(sr.Method, "subscribe.") {
+			push(sr.Method[len("subscribe."):])
+		}
+	}
+	for len(stack) > 0 {
+		r := stack[len(stack)-1]
+		stack = stack[:len(stack)-1]
+		if r == rid {
+			return true
+		}
+		if avoid(r) {
+			continue
+		}
+		for _, ref := range rc.Cache[r].refs() {
+			push(ref)
+		}
+	}
+	return false
+}
+
 // State returns the client's copy of rid in comparable form.
 func (rc *RefClient) State(rid string) interface{} {
 	r := rc.Cache[rid]
